@@ -451,7 +451,9 @@ impl Scenario for C18 {
                     0 | 1 => O::Commit(a[2].clone()),
                     // an empty commit id is representable and prints as "commit:"
                     2 => O::Commit(String::new()),
-                    _ => O::Other(format!("https://{}", a[2])),
+                    3 => O::Other(format!("https://{}", a[2])),
+                    // a category word glued to a comma is ordinary text (the separator is ", ")
+                    _ => O::Other(format!("{},{}", ["vendor", "upstream", "backport", "other"][sel % 4], a[2])),
                 };
                 let pre = format!("{mode}+category={}", cat.map(|x| x.to_string()).unwrap_or("none".into()));
                 let val = PH { origin: Some((cat, origin)), forwarded: None, author: None, reviewed_by: None, bug_debian: None, last_update: None, applied_upstream: None, bug: None, description: None };
@@ -498,7 +500,9 @@ impl Scenario for C18 {
                 use apt_sources::signature::Signature as S;
                 let lead = ["", "", "\n", "\n\n", " \n"][(sel / 2) % 5];
                 let val = if sel % 2 == 0 {
-                    S::KeyPath(format!("/usr/share/keyrings/{}.gpg", a[2]).into())
+                    // the path is text: doubled slashes, "/./" and a trailing slash are kept as written
+                    let shape = ["/usr/share/keyrings/{}.gpg", "/etc/apt//keyrings/{}.asc", "/etc/./apt/{}.gpg", "relative/{}/", "{}"][(sel / 2) % 5];
+                    S::KeyPath(shape.replace("{}", &a[2]).into())
                 } else {
                     match (sel / 10) % 6 {
                         // degenerate but representable blocks: one line, nothing at all
